@@ -89,14 +89,14 @@ class SchedEngine(Engine):
             # a woken-then-dropped async receive next to a parked sync receiver (the wake must be passed on);
             # two pending senders of which the woken one is dropped un-polled (cap >= 2: the slot stays free
             # and the only receiver stays alive but idle, op K)
-            return ["%s %d 200 7 | PS: s s | CS: r r | C: %s" % (f, cap, "r" if rv else "rw"),
-                    "%s %d 200 8 | P: s s sw | P: s | CS: r %s" % (f, max(cap, 2) if cap else 0, "K" if f == "mpmcba" else "D")]
+            return ["%s %d 120 7 | PS: s s | CS: r r | C: %s" % (f, cap, "r" if rv else "rw"),
+                    "%s %d 120 8 | P: s s sw | P: s | CS: r %s" % (f, max(cap, 2) if cap else 0, "K" if f == "mpmcba" else "D")]
         if maxp >= 2:
             # the last sender leaves while the async receiver registers; re-poll with another waker
-            return ["%s %d 200 9 | P: s | P: | C: r r D" % (f, cap),
-                    "%s %d 200 10 | P: s s | PS: s | C: rp rp %s D" % (f, cap, "r" if rv else "rw")]
-        return ["%s %d 200 11 | P: s s s | C: rp rp %s D" % (f, cap, "r" if rv else "rw"),
-                "%s %d 200 12 | P: s ts sw s | C: %s r D" % (f, cap, "r" if rv else "rt")]
+            return ["%s %d 120 9 | P: s | P: | C: r r D" % (f, cap),
+                    "%s %d 120 10 | P: s s | PS: s | C: rp rp %s D" % (f, cap, "r" if rv else "rw")]
+        return ["%s %d 120 11 | P: s s s | C: rp rp %s D" % (f, cap, "r" if rv else "rw"),
+                "%s %d 120 12 | P: s ts sw s | C: %s r D" % (f, cap, "r" if rv else "rt")]
 
     # ------------------------------------------------------------------ generators
     def gen(self, rng, tier):
@@ -247,16 +247,16 @@ class SchedEngine(Engine):
 CORPUS = {
     # (1) the lagging receiver is dropped / closed while the producer is parked on the full ring and the other
     #     receiver has caught up; (2) the sender goes away while receivers are parked on the empty ring
-    "spmc": ["spmc 1 200 21 | P: s s s | C: r r r D | C: dc",
-             "spmc 2 200 22 | P: s s | C: D | C: D | CA: r D"],
-    "spmca": ["spmca 1 200 23 | P: s s s | C: r r r D | C: cl",
-              "spmca 2 200 24 | P: s sw s | C: D | C: rp D | CS: rt D"],
+    "spmc": ["spmc 1 120 21 | P: s s s | C: r r r D | C: dc",
+             "spmc 2 120 22 | P: s s | C: D | C: D | CA: r D"],
+    "spmca": ["spmca 1 120 23 | P: s s s | C: r r r D | C: cl",
+              "spmca 2 120 24 | P: s sw s | C: D | C: rp D | CS: rt D"],
     # (1) a receiver clone is made while the last sender leaves; (2) a timed receive is woken by a delivery
     #     right before the last sender leaves
-    "topic": ["topic 8 200 31 | P: p1 | C: sub1 sub2 cln D",
-              "topic 8 200 32 | P: p1 | P: p2 | C: sub1 rt rt D | C: sub2 cln rt tr D"],
-    "topica": ["topica 8 200 33 | P: p1 p1 | C: sub1 sub2 cln rp D | CS: sub1 cln D",
-               "topica 2 200 34 | P: p1 p2 | PS: p2 | C: sub1 rw rt D | CS: sub2 uns2 sub2 rt D"],
+    "topic": ["topic 8 120 31 | P: p1 | C: sub1 sub2 cln D",
+              "topic 8 120 32 | P: p1 | P: p2 | C: sub1 rt rt D | C: sub2 cln rt tr D"],
+    "topica": ["topica 8 120 33 | P: p1 p1 | C: sub1 sub2 cln rp D | CS: sub1 cln D",
+               "topica 2 120 34 | P: p1 p2 | PS: p2 | C: sub1 rw rt D | CS: sub2 uns2 sub2 rt D"],
 }
 
 
